@@ -789,6 +789,39 @@ func (sc *Scope) callExpr(e *Expr) (tv, error) {
 			return tv{sv{fmt.Sprintf("(< %s %s)", s.arr, sc.cur.alloc)}, tBool}, nil
 		}
 		return errf("allocated of %T", args[0].sym)
+	case "ncalls":
+		return tv{sv{vc.heapGet(sc.cur, "Z:n", "Int")}, tInt}, nil
+	case "callfn":
+		return tv{sv{vc.loadScalar(sc.cur, "Z:fn", []Term{scal(0)}, "Int")}, tInt}, nil
+	case "fnid":
+		if e.Args[0].Op != "str" {
+			return errf("fnid needs a string literal")
+		}
+		for _, cand := range []string{e.Args[0].Str, "iface " + e.Args[0].Str, "extern " + e.Args[0].Str} {
+			if ct := eng.db.Contracts[cand]; ct != nil {
+				return tv{sv{eng.contractID(ct)}, tInt}, nil
+			}
+		}
+		return errf("fnid: no contract %q", e.Args[0].Str)
+	case "callargLV", "callargInt", "callargStr", "callargBool", "callresLV", "callresInt", "callresStr", "callresBool":
+		kind := "a"
+		name := strings.TrimPrefix(e.Name, "callarg")
+		if strings.HasPrefix(e.Name, "callres") {
+			kind = "r"
+			name = strings.TrimPrefix(e.Name, "callres")
+		}
+		sort := map[string]string{"LV": "LV", "Int": "Int", "Str": "Str", "Bool": "Bool"}[name]
+		pos := "0"
+		if len(args) > 1 {
+			pos = scal(1)
+		}
+		rt := map[string]types.Type{"LV": lvType(), "Int": tInt, "Str": tString, "Bool": tBool}[name]
+		return tv{sv{vc.loadScalar(sc.cur, fmt.Sprintf("Z:%s%s:%s", kind, pos, sort), []Term{scal(0)}, sort)}, rt}, nil
+	case "deref":
+		if a, ok := args[0].sym.(adv); ok {
+			return tv{vc.load(sc.cur, a), a.typ}, nil
+		}
+		return errf("deref of a non-address")
 	case "arrid":
 		if s, ok := args[0].sym.(slv); ok {
 			return tv{sv{s.arr}, tInt}, nil
